@@ -29,6 +29,7 @@ var commonSteps = []string{
 // steps that need version ids
 var versionedSteps = []string{
 	"delete-vid", "delete-vid-bypass", "delete-objects-vid", "delete-objects-vid-bypass", "delete-top-version",
+	"delete-objects-same-key-twice", "delete-objects-same-key-twice-bypass",
 	"put-retention-shorter-vid", "put-retention-shorter-vid-bypass", "put-retention-downgrade-vid", "put-retention-downgrade-vid-bypass",
 	"put-retention-empty-vid-bypass", "put-retention-extend-vid",
 	"legal-hold-off-vid",
@@ -38,7 +39,7 @@ var versionedSteps = []string{
 var unversionedSteps = []string{"delete-bogus-version", "delete-bogus-version-bypass"}
 
 var destructive = []string{"overwrite-put", "copy-onto", "complete-mpu-onto", "delete", "delete-bypass", "delete-vid", "delete-vid-bypass",
-	"delete-objects", "delete-objects-bypass", "delete-objects-vid", "delete-objects-vid-bypass", "delete-top-version", "delete-bucket"}
+	"delete-objects", "delete-objects-bypass", "delete-objects-vid", "delete-objects-vid-bypass", "delete-objects-same-key-twice", "delete-objects-same-key-twice-bypass", "delete-top-version", "delete-bucket"}
 
 var enablers = []string{"put-lock-config-no-enabled", "put-lock-config-rule-only", "put-lock-config-enabled-no-rule", "put-lock-config-shorter-rule",
 	"put-lock-config-downgrade-rule", "versioning-suspend", "legal-hold-off", "legal-hold-off-vid", "put-retention-shorter-bypass", "put-retention-shorter-vid-bypass",
@@ -287,6 +288,30 @@ func (r *run) do(st step) stepLog {
 		}
 		if !useVid && r.e.versioned && out.Accepted {
 			out.Kind = "marker"
+		}
+		return out
+	case "delete-objects-same-key-twice":
+		// one batch names every protected key twice: first the plain key (legal: a delete marker), then the
+		// protected version. Every ENTRY needs its own lock decision.
+		if !r.e.versioned {
+			return na("no version ids in this environment")
+		}
+		var objs []delObj
+		lg.Kind = "delete"
+		for _, en := range r.ledger {
+			if len(r.tops) > 0 {
+				objs = append(objs, delObj{en.Key, r.tops[len(r.tops)-1]})
+			} else {
+				objs = append(objs, delObj{en.Key, ""})
+			}
+			objs = append(objs, delObj{en.Key, en.Vid})
+			lg.Targets = append(lg.Targets, target{en.Key, en.Vid})
+		}
+		resp := cl.Sub("POST", b, "", "delete=", deleteXML(objs), hdr...)
+		out := finish(fmt.Sprintf("POST ?delete %v", objs), resp)
+		out.Accepted = resp.OK() && strings.Contains(string(resp.Body), "<Deleted>")
+		if out.Accepted && len(r.tops) > 0 {
+			r.tops = r.tops[:len(r.tops)-1]
 		}
 		return out
 	case "delete-objects-alias-key":
